@@ -23,13 +23,13 @@ import (
 )
 
 type c07Ledger struct {
-	mu      sync.Mutex
-	seen    map[string]string // value -> "proof#role"
-	listOf  map[string]int    // "proof#role" -> list id (for the shared secret-key randomiser)
-	proofs  int
-	pairs   int64
+	mu            sync.Mutex
+	seen          map[string]string // value -> "proof#role"
+	listOf        map[string]int    // "proof#role" -> list id (for the shared secret-key randomiser)
+	proofs        int
+	pairs         int64
 	consumedCache int
-	dup     []string
+	dup           []string
 }
 
 func newC07Ledger() *c07Ledger {
@@ -112,24 +112,31 @@ func (l *c07Ledger) recordProofU(name string, p *ProofU, b *CredentialBuilder, l
 	l.mu.Lock()
 	l.proofs++
 	l.mu.Unlock()
-	l.add("rho", new(big.Int).Sub(p.SResponse, new(big.Int).Mul(p.C, b.secret)), name+"#s", listID)
-	l.add("rho", new(big.Int).Sub(p.VPrimeResponse, new(big.Int).Mul(p.C, b.vPrime)), name+"#vprime", -1)
+	if sec := credBuilderSecret(b); sec != nil {
+		l.add("rho", new(big.Int).Sub(p.SResponse, new(big.Int).Mul(p.C, sec)), name+"#s", listID)
+	} else {
+		l.add("resp-s", p.SResponse, name+"#s", listID) // white-box field unavailable: raw response
+	}
+	if vp := credBuilderVPrime(b); vp != nil {
+		l.add("rho", new(big.Int).Sub(p.VPrimeResponse, new(big.Int).Mul(p.C, vp)), name+"#vprime", -1)
+	}
+	mu := credBuilderMUser(b)
 	for i, r := range p.MUserResponses {
-		if b.mUser[i] != nil {
-			l.add("rho", new(big.Int).Sub(r, new(big.Int).Mul(p.C, b.mUser[i])), fmt.Sprintf("%s#m%d", name, i), -1)
+		if mu != nil && mu[i] != nil {
+			l.add("rho", new(big.Int).Sub(r, new(big.Int).Mul(p.C, mu[i])), fmt.Sprintf("%s#m%d", name, i), -1)
 		}
 	}
 }
 
 type c07World struct {
-	kp       *vfk.KeyPair
-	world    *revWorld
-	creds    []*revCred
-	builders []*CredentialBuilder
-	ledger   *c07Ledger
-	nonce    int64
-	ctx      *big.Int
-	history  []string
+	kp            *vfk.KeyPair
+	world         *revWorld
+	creds         []*revCred
+	builders      []*CredentialBuilder
+	ledger        *c07Ledger
+	nonce         int64
+	ctx           *big.Int
+	history       []string
 	cachePrepared map[int]bool
 }
 
@@ -370,7 +377,9 @@ func TestVF_C07(t *testing.T) {
 		rec.Case(fmt.Sprintf("history/proofs>=2:%v/consumed-cache:%v", w.ledger.proofs >= 2, w.ledger.consumedCache >= 1), nt, fmt.Sprint(w.history))
 		rec.Class("pairs-compared", w.ledger.pairs)
 		rec.Class("proofs", int64(w.ledger.proofs))
-		rec.Sample(func() any { return map[string]any{"key": kp.Name, "credentials": ncreds, "history": w.history, "proofs": w.ledger.proofs} })
+		rec.Sample(func() any {
+			return map[string]any{"key": kp.Name, "credentials": ncreds, "history": w.history, "proofs": w.ledger.proofs}
+		})
 	})
 }
 
